@@ -70,6 +70,26 @@ def handleOwn (op : String) (j : Json) : Option (Except String Json) :=
             pure (Json.mkObj [("res", slotsJson res), ("grp", toJson (Condorcet.copelandGroups v n))])
           else pure (slotsJson res)
         | .error e => pure (errJson e)
+  | "c11_pairwise" => some do
+    -- an evaluator of condorcet.EVALUATORS / a Condorcet set on a pairwise dictionary given directly (no converter in front):
+    -- pairwise dictionaries with exact ties of a large total next to genuine wins (op `pair_tie` of harness/props/C11.py)
+    let v ← C06.getPairwise j "votes"
+    let name ← j.getObjValAs? String "name"
+    match name with
+    | "winner" => pure (toJson (C11F.CondorcetSet.winner.eval v))
+    | "smith" => pure (toJson (C11F.CondorcetSet.smith.eval v))
+    | "schwartz" => pure (toJson (C11F.CondorcetSet.schwartz.eval v))
+    | _ =>
+      let n ← j.getObjValAs? Nat "n"
+      match C11F.CondorcetEv.byName name with
+      | none => throw s!"unknown evaluator {name}"
+      | some ev =>
+        match ev.eval v n with
+        | .ok res =>
+          if name = "copeland_2o" then
+            pure (Json.mkObj [("res", slotsJson res), ("grp", toJson (Condorcet.copelandGroups v n))])
+          else pure (slotsJson res)
+        | .error e => pure (errJson e)
   | _ => none
 
 /-- C11 re-uses the model handlers of the families it scales (first handler that knows the op answers) -/
